@@ -149,8 +149,14 @@ theorem setAlias_spec {c c' : Chem} {res : List String} {id a : String}
       (c'.index = c.index ∨ (alookup a c.index = none ∧ c'.index = c.index ++ [(a, .pos i)]))) := by
   unfold Chem.setAlias at h
   split at h
-  · cases h
-  · cases h
+  · split at h
+    · split at h
+      · cases h
+      · split at h <;> cases h
+    · cases h
+  · split at h
+    · cases h
+    · split at h <;> cases h
   · rename_i i hi
     split at h
     · cases h
@@ -320,5 +326,45 @@ theorem mem_dedup : ∀ (l : List String) (x : String), x ∈ dedup l ↔ x ∈ 
         · subst hx; exact h
         · exact hx
     · simp [mem_dedup t x]
+
+/-! ### names of chemicals never move -/
+
+theorem setAliasFail_mono (c : Chem) (res : List String) (id a : String) {k : String} {e : Ent}
+    (hk : alookup k c.index = some e) : alookup k (c.setAliasFail res id a).index = some e := by
+  unfold Chem.setAliasFail
+  split
+  · split
+    · exact hk
+    · exact alookup_append_left _ hk
+  · exact hk
+
+theorem defineGroup_keeps_pos {c c' : Chem} {res : List String} {name : String} {ids : List String}
+    {comp : Option (List Rat)} {wt : Bool} (h : c.defineGroup res name ids comp wt = .ok c')
+    {k : String} {i : Nat} (hk : alookup k c.index = some (.pos i)) :
+    alookup k c'.index = some (.pos i) := by
+  unfold Chem.defineGroup at h
+  split at h
+  · cases h
+  · split at h
+    · cases h
+    · cases h
+    · rename_i hne _ _ hnp _
+      have hkn : name ≠ k := by
+        intro heq
+        subst heq
+        exact hnp i hk
+      simp only at h
+      split at h
+      · cases h
+      · split at h
+        · cases h
+        · split at h
+          · cases h
+          · split at h
+            · cases h
+            · cases h
+              simp only
+              rw [alookup_ainsert_ne _ hkn]
+              exact hk
 
 end ThermoVerif.Chemicals
